@@ -146,92 +146,171 @@ Fixpoint dec_fuel (fuel : nat) (n : N) (acc : string) : string :=
   end.
 Definition dec (n : N) : string := dec_fuel 25 n "".
 
-(* ------------------------------------------------------------------ ini.cpp: ${ENV:default} *)
-(* find_next(ch, value): first unescaped occurrence; an escaping backslash is removed *)
-Fixpoint find_unesc (c : ascii) (s : string) : option (string * string) :=
+(* ------------------------------------------------------------------ ini.cpp: ${ENV:default}, $[key:default] *)
+(* Transcription of section::expand / expand_brace / expand_bracket / expand_only / find_next
+   (libs/pika/ini/src/ini.cpp).  The real functions work on one mutable string and positions; every
+   one of them only touches the text behind the position it is given, so the transcription works on
+   that suffix:
+
+     scan s          = expand(value, begin) where s is the text behind position begin
+     at_dollar t     = one iteration of expand's loop at a '$' that is followed by t (t non-empty):
+                       the placeholder (if it is one) is replaced, then the search for the next '$'
+                       goes on BEHIND THE FIRST CHARACTER of whatever now stands at that position -
+                       the substituted text is scanned again, except its first character
+     brace_body r    = expand_brace at "${" ++ r: first expand() of everything behind (nested and
+                       following placeholders), then the first unescaped '}', then getenv
+     bracket_body r  = expand_bracket at "$[" ++ r: the same with root_->get_entry(key, default),
+                       which expands the entry (or the default) it returns
+
+   The recursion of the real code is unbounded (an environment value that contains a reference to
+   itself behind its first character never stops growing); the transcription has explicit fuel
+   (nesting depth of calls) and the error value XFuel.  XThrow: find_next(":", to_expand) computes
+   end - 1 for a colon at position 0 and std::string::replace throws std::out_of_range. *)
+Inductive xres := XOk (s : string) | XFuel | XThrow.
+Definition xbind (r : xres) (f : string -> xres) : xres :=
+  match r with XOk s => f s | XFuel => XFuel | XThrow => XThrow end.
+Definition xmap (f : string -> string) (r : xres) : xres := xbind r (fun s => XOk (f s)).
+Definition xstr (r : xres) : string := match r with XOk s => s | _ => EmptyString end.
+
+(* find_next(ch, value, begin) on the text behind the start of the search: the first occurrence of ch
+   that is not preceded by a backslash; the backslash of every escaped occurrence passed on the way is
+   REMOVED FROM THE VALUE, also when no unescaped occurrence follows (FNone carries the changed text).
+   The character in front of the searched text is never a backslash ('{' / '[' for the closing
+   delimiter; for ':' see split_colon). *)
+Inductive fnres := FFound (before after : string) | FNone (changed : string).
+Fixpoint find_next (c : ascii) (s : string) : fnres :=
   match s with
-  | EmptyString => None
+  | EmptyString => FNone EmptyString
   | String d r =>
-      if aeqb d c then Some (EmptyString, r)
+      if aeqb d c then FFound EmptyString r
       else match r with
            | String e r' =>
                if aeqb d c_bs && aeqb e c
-               then match find_unesc c r' with
-                    | Some (a, b) => Some (String e a, b) | None => None end
-               else match find_unesc c r with
-                    | Some (a, b) => Some (String d a, b) | None => None end
-           | EmptyString => None
+               then match find_next c r' with
+                    | FFound a b => FFound (String e a) b | FNone t => FNone (String e t) end
+               else match find_next c r with
+                    | FFound a b => FFound (String d a) b | FNone t => FNone (String d t) end
+           | EmptyString => FNone s
            end
+  end.
+
+(* find_next(":", to_expand): the search starts at position 0; a colon there makes the code evaluate
+   value.replace(size_t(-1), 2, ":") -> std::out_of_range (None) *)
+Definition split_colon (inside : string) : option fnres :=
+  match inside with
+  | String d _ => if aeqb d c_colon then None else Some (find_next c_colon inside)
+  | EmptyString => Some (FNone EmptyString)
   end.
 
 Definition getenv (env : list (string * string)) (k : string) : option string := assoc k env.
 
-Definition subst_brace (env : list (string * string)) (inside : string) : string :=
-  match find_unesc c_colon inside with
-  | None => match getenv env inside with Some v => v | None => "" end
-  | Some (name, dflt) => match getenv env name with Some v => v | None => dflt end
-  end.
+Fixpoint dollars (s : string) : nat :=
+  match s with EmptyString => O | String c r => (if aeqb c c_dollar then 1 else 0) + dollars r end.
 
-(* section::expand: every ${...} (innermost/rightmost first, as expand_brace calls expand on the
-   tail before looking for its own closing brace).  $[key] references are left alone (not
-   modelled; no compared entry uses them). *)
-Fixpoint expand (env : list (string * string)) (s : string) : string :=
-  match s with
-  | EmptyString => EmptyString
-  | String c r =>
-      let r' := expand env r in
-      if aeqb c c_dollar then
-        match r' with
-        | String b body =>
-            if aeqb b c_lbrace then
-              match find_unesc c_rbrace body with
-              | Some (inside, after) => subst_brace env inside ++ after
-              | None => String c r'
-              end
-            else String c r'
-        | EmptyString => String c r'
-        end
-      else String c r'
-  end.
+Section Expand.
+  Variable env : list (string * string).
+  Variable look : string -> option string.     (* the STORED (not yet expanded) value of an entry *)
 
-(* the same with $[key] / $[key:default] references (expand_bracket: root_->get_entry(key,
-   default), i.e. the value of another entry; [look] is the configuration the entry is read
-   from).  Used for the one entry whose value comes from the user's command line
-   (pika.reconstructed_cmd_line); the built-in lines compared by the check contain no $[..]. *)
-Definition subst_bracket (look : string -> option string) (inside : string) : string :=
-  match find_unesc c_colon inside with
-  | None => match look inside with Some v => v | None => "" end
-  | Some (name, dflt) => match look name with Some v => v | None => dflt end
-  end.
+  Section Body.
+    Variable only : option string.             (* Some key: expand_only(.., expand_this = key) *)
+    Variable Eall : string -> xres.            (* section::expand, one level less fuel *)
+    Variable Erec : string -> xres.            (* this function, one level less fuel *)
 
-Fixpoint expand_entry (env : list (string * string)) (look : string -> option string) (s : string) : string :=
-  match s with
-  | EmptyString => EmptyString
-  | String c r =>
-      let r' := expand_entry env look r in
-      if aeqb c c_dollar then
-        match r' with
-        | String b body =>
-            if aeqb b c_lbrace then
-              match find_unesc c_rbrace body with
-              | Some (inside, after) => subst_brace env inside ++ after
-              | None => String c r'
-              end
-            else if aeqb b c_lbrack then
-              match find_unesc c_rbrack body with
-              | Some (inside, after) => subst_bracket look inside ++ after
-              | None => String c r'
-              end
-            else String c r'
-        | EmptyString => String c r'
-        end
-      else String c r'
-  end.
+    (* root_->get_entry(key, default): expand(entry) or expand(default) *)
+    Definition get_entry (k dflt : string) : xres :=
+      Eall (match look k with Some v => v | None => dflt end).
+    Definition mine (name : string) : bool :=
+      match only with None => true | Some k => String.eqb name k end.
 
-Definition builtin (env : list (string * string)) (key : string) : string :=
-  match assoc key builtin_ini with Some raw => expand env raw | None => "" end.
+    Definition brace_body (rest : string) : xres :=
+      xbind (Erec rest) (fun r =>
+        match find_next c_rbrace r with
+        | FNone r' => XOk (String c_dollar (String c_lbrace r'))
+        | FFound inside after =>
+            match split_colon inside with
+            | None => XThrow
+            | Some (FNone name) =>
+                XOk ((match getenv env name with Some v => v | None => EmptyString end) ++ after)
+            | Some (FFound name dflt) =>
+                XOk ((match getenv env name with Some v => v | None => dflt end) ++ after)
+            end
+        end).
+
+    Definition bracket_body (rest : string) : xres :=
+      xbind (Erec rest) (fun r =>
+        match find_next c_rbrack r with
+        | FNone r' => XOk (String c_dollar (String c_lbrack r'))
+        | FFound inside after =>
+            let keep := String c_dollar (String c_lbrack (inside ++ String c_rbrack after)) in
+            match split_colon inside with
+            | None => XThrow
+            | Some (FNone name) =>
+                if mine name then xmap (fun v => v ++ after) (get_entry name EmptyString) else XOk keep
+            | Some (FFound name dflt) =>
+                if mine name then xmap (fun v => v ++ after) (get_entry name dflt) else XOk keep
+            end
+        end).
+
+    (* what stands at the position of the '$' after the loop body *)
+    Definition step (t : string) : xres :=
+      match t with
+      | String b t' => if aeqb b c_lbrack then bracket_body t'
+                       else if aeqb b c_lbrace then brace_body t'
+                       else XOk (String c_dollar t)
+      | EmptyString => XOk (String c_dollar EmptyString)
+      end.
+    (* p = value.find_first_of('$', p + 1): the first character at p is skipped, the rest is scanned *)
+    Definition rescan_tail (u : string) : xres :=
+      match u with EmptyString => XOk EmptyString | String a u1 => xmap (String a) (Erec u1) end.
+    Definition at_dollar (t : string) : xres := xbind (step t) rescan_tail.
+    Definition scan (s : string) : xres :=
+      match split_at c_dollar s with
+      | None => XOk s
+      | Some (pre, EmptyString) => XOk s            (* value.size() - 1 == p *)
+      | Some (pre, t) => xmap (append pre) (at_dollar t)
+      end.
+  End Body.
+
+  Fixpoint xp_all (fuel : nat) (s : string) : xres :=
+    match fuel with O => XFuel | S f => scan None (xp_all f) (xp_all f) s end.
+  Fixpoint xp_only (fuel : nat) (k : string) (s : string) : xres :=
+    match fuel with O => XFuel | S f => scan (Some k) (xp_all f) (xp_only f k) s end.
+End Expand.
+
+(* nesting depth granted to one expansion by the executable model; Proofs/ConfigExpandProofs.v: more
+   fuel never changes a result other than XFuel, (number of '$') + 1 levels suffice when the
+   substituted values contain no '$', and a value that refers to itself behind its first character
+   runs out of every amount of fuel *)
+Definition xfuel : nat := 100.
+
+(* an entry is expanded twice: add_entry stores expand_only(value, own key) (every ${..}, and $[own key]),
+   get_entry returns expand(stored value) *)
+Definition stored_x env look (key v : string) : xres := xp_only env look xfuel key v.
+Definition read_x env look (key v : string) : xres :=
+  xbind (stored_x env look key v) (xp_all env look xfuel).
+
+(* the built-in lines are added by the constructor of runtime_configuration, before anything else exists *)
+Definition no_entries : string -> option string := fun _ => None.
+Definition look0 (env : list (string * string)) (k : string) : option string :=
+  match assoc k builtin_ini with Some raw => Some (xstr (stored_x env no_entries k raw)) | None => None end.
+Definition builtin_x (env : list (string * string)) (key : string) : xres :=
+  match assoc key builtin_ini with
+  | Some raw => xbind (stored_x env no_entries key raw) (xp_all env (look0 env) xfuel)
+  | None => XOk EmptyString
+  end.
+Definition builtin (env : list (string * string)) (key : string) : string := xstr (builtin_x env key).
 Definition known_key (key : string) : bool :=
   match assoc key builtin_ini with Some _ => true | None => false end.
+
+(* the first expansion of a list that does not end (XFuel) or throws (XThrow) *)
+Fixpoint first_bad (l : list xres) : xres :=
+  match l with
+  | [] => XOk EmptyString
+  | XOk _ :: r => first_bad r
+  | e :: _ => e
+  end.
+Definition builtin_status (env : list (string * string)) : xres :=
+  first_bad (map (fun e => builtin_x env (fst e)) builtin_ini).
 
 (* ------------------------------------------------------------------ boost::escaped_list_separator *)
 Section Tok.
@@ -278,7 +357,9 @@ Inductive reject :=
   | RBadMask             (* unparsable process mask *)
   | RResources           (* more threads than processing units / bad scheduler downstream *)
   | RLateUnknown         (* late handler: unrecognised option, stop() = -1, entry point not run *)
-  | RLateSplit.          (* late: the rebuilt command line cannot be split again *)
+  | RLateSplit           (* late: the rebuilt command line cannot be split again *)
+  | RExpandLoop          (* a ${..} / $[..] expansion does not end: start-up hangs (model: out of fuel) *)
+  | RExpandCrash.        (* ${:..}: std::out_of_range escapes from find_next, the process is terminated *)
 
 Record config := {
   c_threads : N; c_cores : N; c_sched : string; c_policy : nat;
@@ -631,9 +712,10 @@ Definition app_filter (args : list string) : list string :=
 (* the late handler re-parses  command + " " + prepend_options + options : both pieces went
    through ini entries, whose values are trimmed, so the last prepended token is glued to the
    first command-line argument; typed option values are validated again there *)
-Definition late_line_ok (arg0 pco : string) (args : list string) : bool :=
-  let line := encode_and_enquote arg0 ++ " " ++ pco ++
-              trim (String.concat "" (map (fun a => " " ++ encode_and_enquote a) args)) in
+Definition late_line_ok (ex : string -> string -> xres) (arg0 pco : string) (args : list string) : bool :=
+  let line := xstr (ex "pika.commandline.command" (trim (encode_and_enquote arg0))) ++ " " ++ pco ++
+              xstr (ex "pika.commandline.options"
+                       (trim (String.concat "" (map (fun a => " " ++ encode_and_enquote a) args)))) in
   match split_unix line with
   | None => false
   | Some toks => match parse_tokens (S (length toks)) (tl toks) false p_empty with
@@ -642,28 +724,53 @@ Definition late_line_ok (arg0 pco : string) (args : list string) : bool :=
                  end
   end.
 
-Definition app_argv (ex : string -> string) (arg0 pco : string) (args : list string) (p : parsed) : option (list string) + reject :=
+Definition cmd_line_status (ex : string -> string -> xres) (arg0 : string) (args : list string) (p : parsed) : xres :=
+  first_bad [ex "pika.commandline.command" (trim (encode_and_enquote arg0));
+             ex "pika.commandline.options" (trim (String.concat "" (map (fun a => " " ++ encode_and_enquote a) args)));
+             ex "pika.reconstructed_cmd_line" (trim (encode_and_enquote arg0 ++ " " ++ reconstruct p ++ " "))].
+
+(* [ex key value] is what reading the entry [key] gives after [value] was stored in it: store_command_line /
+   store_unregistered_options put the pieces of the command line into ini entries (expand_only when they
+   are added by reconfigure(ini_config_) at the end of call()), the late handler and init_helper read them
+   back (expand) *)
+Definition app_argv (ex : string -> string -> xres) (arg0 pco : string) (args : list string) (p : parsed) : option (list string) + reject :=
+  match cmd_line_status ex arg0 args p with
+  | XFuel => inr RExpandLoop
+  | XThrow => inr RExpandCrash
+  | XOk _ =>
   if (match p_unreg p with [] => false | _ => true end) then inr RLateUnknown else
-  if negb (late_line_ok arg0 pco args) then inr RLateSplit else
+  if negb (late_line_ok ex arg0 pco args) then inr RLateSplit else
   (* the line travels through an ini entry (pika.reconstructed_cmd_line): the value is trimmed when
      it is stored and EXPANDED when init_helper reads it back with get_config_entry ([ex]): ${NAME}
      and $[key] words of the user's arguments are replaced (finding C16:app_args:dollar_expanded) *)
-  let line := ex (trim (encode_and_enquote arg0 ++ " " ++ reconstruct p ++ " ")) in
+  let line := xstr (ex "pika.reconstructed_cmd_line" (trim (encode_and_enquote arg0 ++ " " ++ reconstruct p ++ " "))) in
   match split_unix line with
   | None => inr RLateSplit
   | Some toks => inl (Some (app_filter (tl toks)))
+  end
   end.
 
 (* ------------------------------------------------------------------ the whole start-up *)
 (* rtcfg_.reconfigure(ini_config_): built-in ini, then the --pika:ini lines and the resolved
    settings in order, last definition wins *)
-Definition final_entries (env : list (string * string)) (inis resolved : list (string * string)) : list (string * string) :=
+(* the stored value of every built-in key (a later definition is stored through add_entry as well) ... *)
+Definition final_stored (env : list (string * string)) (inis resolved : list (string * string)) : list (string * string) :=
   map (fun e => let k := fst e in
                 (k, match assoc_last k (inis ++ resolved)%list None with
-                    | Some v => expand env v
-                    | None => expand env (snd e) end)) builtin_ini.
+                    | Some v => xstr (stored_x env (look0 env) k v)
+                    | None => xstr (stored_x env no_entries k (snd e)) end)) builtin_ini.
+(* ... and what get_entry returns for it: $[key] refers to the stored values of the final configuration *)
+Definition final_entries (env : list (string * string)) (inis resolved : list (string * string)) : list (string * string) :=
+  let st := final_stored env inis resolved in
+  map (fun e => (fst e, xstr (xp_all env (fun k => assoc k st) xfuel (snd e)))) st.
 
 Definition run (env : list (string * string)) (m : machine) (arg0 : string) (args : list string) : outcome :=
+  (* the constructor of the runtime configuration adds every built-in line (expand_only of the
+     environment values); the handlers read them: an expansion that does not end / throws stops everything *)
+  match builtin_status env with
+  | XFuel => Rejected RExpandLoop
+  | XThrow => Rejected RExpandCrash
+  | XOk _ =>
   let pco := builtin env "pika.commandline.prepend_options" in
   match tok_prepend pco with
   | None => Unsupported
@@ -683,13 +790,16 @@ Definition run (env : list (string * string)) (m : machine) (arg0 : string) (arg
       let inis := ini_pairs lines in
       let allow_unknown :=
         negb (String.eqb (match assoc_last "pika.commandline.allow_unknown" inis None with
-                          | Some v => expand env v | None => builtin env "pika.commandline.allow_unknown" end) "0") in
+                          | Some v => xstr (read_x env (look0 env) "pika.commandline.allow_unknown" v)
+                          | None => builtin env "pika.commandline.allow_unknown" end) "0") in
       if allow_unknown then Unsupported else
       let h := handle env p inis m (forallb ini_line_ok lines) (fun resolved => final_entries env inis resolved) in
       (* $[key] in the rebuilt command line refers to the final configuration; the entries do not
          depend on the application arguments, so they are taken from a run of the handlers with a
          dummy argv *)
-      let look k := match h (fun _ => inl (Some [])) with Started c0 => assoc k (c_entries c0) | _ => None end in
-      h (fun _ => app_argv (expand_entry env look) arg0 pco args p)
+      let look k := match handle env p inis m (forallb ini_line_ok lines) (fun resolved => final_stored env inis resolved)
+                                 (fun _ => inl (Some [])) with Started c0 => assoc k (c_entries c0) | _ => None end in
+      h (fun _ => app_argv (read_x env look) arg0 pco args p)
     end
+  end
   end.
